@@ -7,8 +7,8 @@ import icontract
 import torch
 import torchtt
 
-from rt_common import (as_matrix, case_id, clause, contract, dense, dtype_of, fro, rand_tt, scale_tag, scale_tt, seed_all,
-                       shape_of, snapshot_tt, unchanged, within)
+from rt_common import (as_matrix, case_id, clause, contract, dense, dtype_of, fro, frozen, rand_tt, scale_tag, scale_tt,
+                       seed_all, shape_of, snapshot_tt, unchanged, unchanged_named, within)
 
 C = 50.0
 FLOOR = 1e-9
@@ -60,8 +60,12 @@ def _finite(result):
 
 @contract
 @icontract.snapshot(lambda initial: snapshot_tt(initial), name="guess")
+@icontract.snapshot(lambda A: snapshot_tt(A), name="first")
+@icontract.snapshot(lambda x: snapshot_tt(x), name="second")
 @clause("guess_modified", lambda OLD, initial: _guess_clause(OLD.guess, initial))
-@clause("accuracy", lambda result, A, x, eps: _accuracy(result, _exact_mv(A, x), eps, A, x))
+@clause("operands_unchanged", lambda OLD, A, x: unchanged_named([("A", OLD.first, A), ("x", OLD.second, x)]))
+@clause("accuracy", lambda result, OLD, eps: _accuracy(
+    result, _exact_mv(frozen(OLD.first), frozen(OLD.second)), eps, frozen(OLD.first), frozen(OLD.second)))
 @clause("finite", lambda result: _finite(result))
 @clause("shape", lambda result, A: (
     (not result.is_ttm) and shape_of(result) == list(A.M), "expected TT tensor of shape %s, got %s%s" % (
@@ -74,8 +78,12 @@ def fast_matvec(A, x, eps, initial):
 
 @contract
 @icontract.snapshot(lambda z0: snapshot_tt(z0), name="guess")
+@icontract.snapshot(lambda x: snapshot_tt(x), name="first")
+@icontract.snapshot(lambda y: snapshot_tt(y), name="second")
 @clause("guess_modified", lambda OLD, z0: _guess_clause(OLD.guess, z0))
-@clause("accuracy", lambda result, x, y, eps: _accuracy(result, dense(x) * dense(y), eps, x, y))
+@clause("operands_unchanged", lambda OLD, x, y: unchanged_named([("x", OLD.first, x), ("y", OLD.second, y)]))
+@clause("accuracy", lambda result, OLD, eps: _accuracy(
+    result, dense(frozen(OLD.first)) * dense(frozen(OLD.second)), eps, frozen(OLD.first), frozen(OLD.second)))
 @clause("finite", lambda result: _finite(result))
 @clause("shape", lambda result, x: (
     (not result.is_ttm) and shape_of(result) == list(x.N), "expected TT tensor of shape %s, got %s%s" % (
@@ -88,8 +96,12 @@ def dmrg_hadamard(x, y, eps, z0):
 
 @contract
 @icontract.snapshot(lambda x0: snapshot_tt(x0), name="guess")
+@icontract.snapshot(lambda A: snapshot_tt(A), name="first")
+@icontract.snapshot(lambda x: snapshot_tt(x), name="second")
 @clause("guess_modified", lambda OLD, x0: _guess_clause(OLD.guess, x0))
-@clause("accuracy", lambda result, A, x, eps: _accuracy(result, _exact_mv(A, x), eps, A, x))
+@clause("operands_unchanged", lambda OLD, A, x: unchanged_named([("A", OLD.first, A), ("x", OLD.second, x)]))
+@clause("accuracy", lambda result, OLD, eps: _accuracy(
+    result, _exact_mv(frozen(OLD.first), frozen(OLD.second)), eps, frozen(OLD.first), frozen(OLD.second)))
 @clause("finite", lambda result: _finite(result))
 @clause("shape", lambda result, A: (
     (not result.is_ttm) and shape_of(result) == list(A.M), "expected TT tensor of shape %s, got %s%s" % (
@@ -103,8 +115,12 @@ def amen_mv(A, x, eps, x0):
 
 @contract
 @icontract.snapshot(lambda X0: snapshot_tt(X0), name="guess")
+@icontract.snapshot(lambda A: snapshot_tt(A), name="first")
+@icontract.snapshot(lambda B: snapshot_tt(B), name="second")
 @clause("guess_modified", lambda OLD, X0: _guess_clause(OLD.guess, X0))
-@clause("accuracy", lambda result, A, B, eps: _accuracy(result, _exact_mm(A, B), eps, A, B))
+@clause("operands_unchanged", lambda OLD, A, B: unchanged_named([("A", OLD.first, A), ("B", OLD.second, B)]))
+@clause("accuracy", lambda result, OLD, eps: _accuracy(
+    result, _exact_mm(frozen(OLD.first), frozen(OLD.second)), eps, frozen(OLD.first), frozen(OLD.second)))
 @clause("finite", lambda result: _finite(result))
 @clause("shape", lambda result, A, B: (
     result.is_ttm and shape_of(result) == list(zip(A.M, B.N)), "expected TT-matrix of shape %s, got %s%s" % (
@@ -140,7 +156,7 @@ def run_case(a, check):
     if op in ("fast_matvec", "amen_mv"):
         A = _post(rand_tt(torchtt, list(zip(M, N)), r, dt), a, "first")
         x = _post(rand_tt(torchtt, N, r, dt), a, "second")
-        guess = None if g is None else torchtt.random(M, g, dtype=dt)
+        guess = x if g == "second" else (None if g is None else torchtt.random(M, g, dtype=dt))   # "second": guess IS x
         seed_all(a["seed"] + 7919)
         if op == "fast_matvec":
             check(None, lambda: fast_matvec(A, x, a["eps"], guess))
@@ -149,14 +165,15 @@ def run_case(a, check):
     elif op == "dmrg_hadamard":
         x = _post(rand_tt(torchtt, N, r, dt), a, "first")
         y = _post(rand_tt(torchtt, N, r, dt), a, "second")
-        guess = None if g is None else torchtt.random(N, g, dtype=dt)
+        guess = x if g == "first" else (y if g == "second" else (None if g is None else torchtt.random(N, g, dtype=dt)))
         seed_all(a["seed"] + 7919)
         check(None, lambda: dmrg_hadamard(x, y, a["eps"], guess))
     elif op == "amen_mm":
         K = list(a["K"])
         A = _post(rand_tt(torchtt, list(zip(M, K)), r, dt), a, "first")
         B = _post(rand_tt(torchtt, list(zip(K, N)), r, dt), a, "second")
-        guess = None if g is None else torchtt.random(list(zip(M, N)), g, dtype=dt)
+        guess = A if g == "first" else (B if g == "second" else (
+            None if g is None else torchtt.random(list(zip(M, N)), g, dtype=dt)))
         seed_all(a["seed"] + 7919)
         check(None, lambda: amen_mm(A, B, a["eps"], guess))
     else:
@@ -170,7 +187,8 @@ def _mk(op, N, rank, eps, guess, dtype, seed, zero=None, s_first=None, s_second=
     if op == "amen_mm":
         a["K"] = _rot(N)
     a["id"] = case_id(op, "order%d" % len(N), "N=%s" % str(N).replace(" ", ""), "r=%d" % rank, "eps=%g" % eps,
-                      "guess=%s" % ("none" if guess is None else "rank%d" % guess), dtype, "seed=%d" % seed)
+                      "guess=%s" % ("none" if guess is None else ("rank%d" % guess if isinstance(guess, int) else guess + "_operand")),
+                      dtype, "seed=%d" % seed)
     if zero:
         a["zero"] = zero
         a["id"] += ".zero=" + zero
@@ -261,6 +279,27 @@ def enumerate_cases(tier, seed):
                         for s in seeds[:2]:
                             cases.append(_mk(op, N, r, eps, g, "complex128", s))
     cases += scaled_and_zero_cases(tier, seed)
+    cases += operand_guess_cases(tier, seed)
+    return cases
+
+
+def operand_guess_cases(tier, seed):
+    """Round 3 family: the initial guess IS one of the operand objects (square shapes, so that the shapes agree)."""
+    quick = tier == "quick"
+    shapes = [[3, 3], [2, 3, 2], [5, 5, 5]] if quick else [[3, 3], [1, 1], [2, 3, 2], [5, 5, 5], [2, 3, 3, 2]]
+    const_shapes = [[3, 3], [5, 5, 5]] if quick else [[3, 3], [2, 2, 2], [5, 5, 5], [2, 2, 2, 2]]
+    cases = []
+    for r in ([2] if quick else [1, 3]):
+        for eps in ([1e-6] if quick else [1e-2, 1e-6, 1e-10]):
+            for s in ([seed, 1] if quick and seed != 1 else [seed, seed + 1]):
+                for N in shapes:            # reversed(N) == N: A is square, a guess for A@x has the shape of x
+                    for op in ("fast_matvec", "amen_mv"):
+                        cases.append(_mk(op, N, r, eps, "second", "float64", s))
+                    for which in ("first", "second"):
+                        cases.append(_mk("dmrg_hadamard", N, r, eps, which, "float64", s))
+                for N in const_shapes:      # all modes equal: A, B and A@B have the same operator shape
+                    for which in ("first", "second"):
+                        cases.append(_mk("amen_mm", N, r, eps, which, "float64", s))
     return cases
 
 
@@ -280,7 +319,11 @@ def bound(tier, seed):
                 "{[3],[2,3],[2,3,2],[3,1,5],[5,5,5]}, ranks {2,3}, eps {1e-2,1e-6,1e-10}, guess {None, rank 3 of norm O(1)}, "
                 "(first,second) operand scalings {(first core x1e-6, none), (none, last core x1e6), (1e6 spread, 1e6 spread), "
                 "(1e-6 spread, 1e-6 spread), (last core x1e3, first core x1e-6), (core k x10**(3(-1)**k), core k x10**(-3(-1)**k))}: "
-                "same relative contract." % seed)
+                "same relative contract. ROUND 3: every evaluation additionally checks clause operands_unchanged (A/x/y/B bit-for-bit "
+                "as before the call) and computes the exact product from snapshots taken BEFORE the call; extra family in which the "
+                "guess IS an operand object: fast_matvec(initial=x) / amen_mv(x0=x) on N in {[3,3],[2,3,2],[5,5,5]} (square A), "
+                "dmrg_hadamard(z0=x) and (z0=y) on the same shapes, amen_mm(X0=A) and (X0=B) on N in {[3,3],[5,5,5]}; rank 2, eps "
+                "1e-6, 2 seeds." % seed)
     return ("C11 thorough: same four ops; 25 shapes of order 1..6 with mode sizes 1..6; ranks {1,2,3,4}; eps in "
             "{1e-1,1e-2,1e-4,1e-6,1e-8,1e-10,1e-12}; guesses {None, random rank 1, 3, 6}; seeds {%d,1,2,3}; float64 + "
             "complex128 (DMRG routines). Same contract as quick. Round-2 family as in quick with more shapes (orders 1..5), ranks "
